@@ -82,9 +82,16 @@ Definition finality (c : cfg) (threads : list step) (m : list (nat * (eff * ans)
                         existsb (fun x => let '(q, (t, ea)) := x in Nat.eqb t tid && (p <? q)%nat && writes_tokens_under sid ea)
                                 (combine (seq 0 (length m)) m))
                      (combine (seq 0 (length threads)) threads) in
+            (* the two known ways: the stale writer is a callback that exchanged a code, or a check that ran a
+               refresh exchange; a stale write of any other origin is not classified *)
+            let has_grant (g : string) (s : step) :=
+              existsb (fun ea => match fst ea with
+                                 | EIdp q => String.eqb (qget "grant_type" (fst (parse_query (q_body q)))) g
+                                 | _ => false end) (s_trace s) in
             let classify := match stale_writers with
                             | [] => 2
-                            | (_, s) :: _ => if matches_callback c (s_req s) then 12 else 11
+                            | (_, s) :: _ => if matches_callback c (s_req s) && has_grant "authorization_code" s then 12
+                                             else if has_grant "refresh_token" s then 11 else 2
                             end in
             (* concurrent checks answered OK after the removal *)
             (flat_map (fun ts => let '(tid, s) := ts in
